@@ -57,14 +57,44 @@ func TestC20(t *testing.T) {
 		{Kind: "vec", Elem: &Ty{Kind: "list", Elem: &Ty{Kind: "list", Elem: u8, N: 1 << 32}, N: 1 << 32}, N: 3},
 	}
 	words := []uint32{0, 4, 8, 12, 16, 20, 0x0ffffffc, 0xfffffffc, 0x7ffffffc, 0x100, 1 << 20, 1 << 24, 0xfffffff8}
+	// offset words that make small multiples wrap in uint32: 2^k, and 2^32*j/k rounded to a
+	// multiple of 4 (and the next one)
+	for k := uint(2); k < 32; k++ {
+		words = append(words, uint32(1)<<k)
+	}
+	maxK := uint64(6)
+	if thorough() {
+		maxK = 17
+	}
+	for k := uint64(2); k <= maxK; k++ {
+		for j := uint64(1); j < k; j++ {
+			w := uint32(((uint64(1)<<32)*j/k)&^3)
+			words = append(words, w, w+4)
+		}
+	}
+	// element types with minimal encodings of 4*(2^k - 1) bytes (k = 1..12) and a few odd ones
+	for _, m := range []uint64{1, 4, 5, 12, 28, 60, 124, 252, 508, 1020, 2044, 4092, 8188, 16380} {
+		var e *Ty
+		if m == 1 {
+			e = &Ty{Kind: "bitlist", N: 1 << 20}
+		} else {
+			e = &Ty{Kind: "cont", Fields: []*Ty{{Kind: "vec", Elem: u8, N: m - 4}, {Kind: "list", Elem: u8, N: 16}}}
+			if m == 4 {
+				e = &Ty{Kind: "cont", Fields: []*Ty{{Kind: "list", Elem: u8, N: 16}}}
+			}
+		}
+		big = append(big, &Ty{Kind: "list", Elem: e, N: 1 << 40})
+	}
 	for _, ty := range big {
 		for _, w := range words {
-			for _, tail := range [][]byte{nil, {1}, {1, 2, 3, 4}, {4, 0, 0, 0, 1}, make([]byte, 12), {0xfc, 0xff, 0xff, 0x0f, 0xfc, 0xff, 0xff, 0x0f}} {
+			for ti, tail := range [][]byte{nil, {1}, {1, 2, 3, 4}, {4, 0, 0, 0, 1}, make([]byte, 12), {0xfc, 0xff, 0xff, 0x0f, 0xfc, 0xff, 0xff, 0x0f}} {
 				d := make([]byte, 4)
 				binary.LittleEndian.PutUint32(d, w)
 				do("hostile", ty, append(d, tail...))
-				do("hostile", ty, append([]byte{0}, append(d, tail...)...))
-				do("hostile", ty, append([]byte{1}, append(d, tail...)...))
+				if ti < 2 || thorough() {
+					do("hostile", ty, append([]byte{0}, append(d, tail...)...))
+					do("hostile", ty, append([]byte{1}, append(d, tail...)...))
+				}
 			}
 		}
 	}
